@@ -7,8 +7,8 @@ EXTENDS StackedTable, Json, IOUtils, TLC
 
 Rec == ndJsonDeserialize(IOEnv.TRACE)
 
-VARIABLES l, saved, sqviews, known, nkeys
-tvars == <<l, saved, sqviews, known, nkeys>>
+VARIABLES l, saved, sqentries, known, nkeys
+tvars == <<l, saved, sqentries, known, nkeys>>
 
 ToSet(s) == {s[i] : i \in 1..Len(s)}
 Keys == 1..nkeys
@@ -18,7 +18,11 @@ PutMap(e) == LET idx == PutsOf(e) IN [k \in DOMAIN idx |-> e.puts[idx[k]][2]]
 ValsOf(name) == (CHOOSE r \in known : r.name = name).vals
 Known(name) == \E r \in known : r.name = name
 SameName(e) == Known(e.name) => ValsOf(e.name) = e.vals
-ParentName(e) == IF Len(e.chain) >= 2 THEN e.chain[2][1] ELSE 0
+ChainNames(c) == {c[i][1] : i \in 1..Len(c)}
+(* local entries of the segments of stack `old` that are not in stack `new` *)
+Folded(old, new) ==
+  UNION {{<<k, old[i][3][k]>> : k \in {j \in 1..Len(old[i][3]) : old[i][3][j] # 0}} :
+           i \in {j \in 1..Len(old) : old[j][1] \notin ChainNames(new)}}
 
 SaveVerdict(e) ==
   IF ~SaveViewOK(e.seen, PutMap(e), e.vals, Keys) THEN "SaveView"
@@ -30,8 +34,9 @@ MergeViewOK(e) ==
   (Len(e.order) > 1 /\ \A i \in 1..Len(e.order) : Known(e.order[i])) =>
     \A k \in Keys : e.vals[k] \in {ValsOf(e.order[i])[k] : i \in 1..Len(e.order)}
 
+SqAfter(e) == IF Len(e.order) > 1 THEN sqentries \cup Folded(e.first_chain, e.chain) ELSE sqentries
 RegressedKnown(e) ==      \* a LaterWins failure, every regressed key has the known shape
-  \A k \in Keys : LaterWinsIn(saved, e.vals, k) \/ SquashHidesAncestry(sqviews, k, e.vals[k])
+  \A k \in Keys : LaterWinsIn(saved, e.vals, k) \/ SquashHidesAncestry(SqAfter(e), k, e.vals[k])
 
 GetHeadVerdict(e) ==
   IF Len(e.heads) = 0 THEN "HeadsEmptyAfterGetHead"
@@ -50,10 +55,10 @@ Verdict(e) ==
   ELSE IF e.op = "error" THEN "Error"
   ELSE "ok"
 
-TInit == l = 1 /\ saved = <<>> /\ sqviews = {} /\ known = {} /\ nkeys = 1
+TInit == l = 1 /\ saved = <<>> /\ sqentries = {} /\ known = {} /\ nkeys = 1
 
 Reset == /\ l <= Len(Rec) /\ Rec[l].op = "reset"
-         /\ saved' = <<>> /\ sqviews' = {} /\ known' = {} /\ nkeys' = Rec[l].nkeys
+         /\ saved' = <<>> /\ sqentries' = {} /\ known' = {} /\ nkeys' = Rec[l].nkeys
          /\ l' = l + 1
 
 Judge ==
@@ -62,18 +67,17 @@ Judge ==
        /\ (IF v = "ok" THEN TRUE ELSE PrintT(<<"BAD", l, v>>))
        /\ IF e.op = "save" THEN
                /\ saved' = Append(saved, [puts |-> PutMap(e), seen |-> e.seen])
-               /\ sqviews' = IF ParentName(e) # e.base /\ e.name # e.base THEN sqviews \cup {e.seen} ELSE sqviews
+               /\ sqentries' = sqentries \cup Folded(e.base_chain, e.chain)
                /\ known' = known \cup {[name |-> e.name, vals |-> e.vals]}
           ELSE IF e.op = "gethead" THEN
-               /\ sqviews' = IF Len(e.order) > 1 /\ e.name # e.order[1] /\ ParentName(e) # e.order[1]
-                             THEN sqviews \cup {e.vals} ELSE sqviews
+               /\ sqentries' = SqAfter(e)
                /\ known' = known \cup {[name |-> e.name, vals |-> e.vals]}
                /\ UNCHANGED saved
-          ELSE UNCHANGED <<saved, sqviews, known>>
+          ELSE UNCHANGED <<saved, sqentries, known>>
   /\ l' = l + 1 /\ UNCHANGED nkeys
 
 Finish == /\ l = Len(Rec) + 1 /\ PrintT(<<"JUDGED", Len(Rec)>>)
-          /\ l' = l + 1 /\ UNCHANGED <<saved, sqviews, known, nkeys>>
+          /\ l' = l + 1 /\ UNCHANGED <<saved, sqentries, known, nkeys>>
 
 TNext == Reset \/ Judge \/ Finish
 TSpec == TInit /\ [][TNext]_tvars
